@@ -382,10 +382,16 @@ func (s *Server) VerifLockMode() string {
 }
 
 // VerifCloseFiles closes the append-only file and the hook queue of a server
-// that has been shut down. Serve leaves both open when it returns (a real
-// process exits); a harness that runs tens of thousands of server lifetimes in
-// one process would run out of file descriptors.
+// that has been shut down and ends the sender goroutines of its webhooks.
+// Serve leaves all of them behind when it returns (a real process exits); a
+// harness that runs tens of thousands of server lifetimes in one process would
+// run out of file descriptors and memory.
 func (s *Server) VerifCloseFiles() {
+	// the sender goroutine of every webhook keeps the whole server alive
+	s.hooks.Ascend(nil, func(v interface{}) bool {
+		v.(*Hook).Close()
+		return true
+	})
 	if s.aof != nil {
 		s.aof.Close()
 	}
